@@ -131,7 +131,7 @@ Proof.
     intros j w Hj. destruct (Nat.eq_dec v j) as [Heq|Hne].
     - subst j. rewrite nth_set_nth_eq by lia.
       destruct Hrv as [Hrv|Hrv]; rewrite Hrv in Hj; [discriminate Hj|].
-      symmetry. exact Hj.
+      exact Hj.
     - rewrite nth_set_nth_neq by exact Hne. exact Hj. }
   split; [|exact Hsub]. unfold sinv.
   split; [exact HS|]. split; [rewrite set_nth_length; exact Hres|].
@@ -244,7 +244,7 @@ Proof.
              as Hinv'.
            apply (IH _ _ _ _ _ _ _ _ Hinv' E).
       * apply Hfix; [left; reflexivity|exact E].
-    + apply (IH _ _ (v :: keep) _ _ _ _ _); [|exact E].
+    + apply (IH restr res (v :: keep) changed c' r' s' ch'); [|exact E].
       simpl. rewrite <- app_assoc. simpl. exact Hinv.
 Qed.
 
